@@ -137,6 +137,8 @@ def _worker_init():
     sys.path.insert(0, REPO)
     import warnings
     warnings.simplefilter("ignore")
+    # gffutils writes progress lines ("3 of 10 (30%)") to stderr during GTF imports
+    sys.stderr = open(os.devnull, "w")
 
 
 def _run_one(args):
